@@ -4686,6 +4686,9 @@ bool SoPlexBase<R>::getBasisInverseRowReal(int r, R* coef, int* inds, int* ninds
    if(!_isRealLPLoaded)
       return false;
 
+   // after a modification of the loaded LP the ids of the basic variables are stale until the basis matrix is set up again
+   _solver.basis().setupMatrix();
+
    // we need to distinguish between column and row representation; ask the solver itself which representation it
    // has, since the REPRESENTATION parameter of this class might be set to automatic
    if(_solver.rep() == SPxSolverBase<R>::COLUMN)
@@ -4879,6 +4882,9 @@ bool SoPlexBase<R>::getBasisInverseColReal(int c, R* coef, int* inds, int* ninds
 
    if(!_isRealLPLoaded)
       return false;
+
+   // after a modification of the loaded LP the ids of the basic variables are stale until the basis matrix is set up again
+   _solver.basis().setupMatrix();
 
    // we need to distinguish between column and row representation; ask the solver itself which representation it
    // has, since the REPRESENTATION parameter of this class might be set to automatic
@@ -5079,6 +5085,9 @@ bool SoPlexBase<R>::getBasisInverseTimesVecReal(R* rhs, R* sol, bool unscale)
    if(!_isRealLPLoaded)
       return false;
 
+   // after a modification of the loaded LP the ids of the basic variables are stale until the basis matrix is set up again
+   _solver.basis().setupMatrix();
+
    // we need to distinguish between column and row representation; ask the solver itself which representation it
    // has, since the REPRESENTATION parameter of this class might be set to automatic; in the column case we can use
    // the existing factorization
@@ -5254,6 +5263,9 @@ bool SoPlexBase<R>::multBasis(R* vec, bool unscale)
    if(!_isRealLPLoaded)
       return false;
 
+   // after a modification of the loaded LP the ids of the basic variables are stale until the basis matrix is set up again
+   _solver.basis().setupMatrix();
+
    if(_solver.rep() == SPxSolverBase<R>::COLUMN)
    {
       int basisdim = numRows();
@@ -5376,6 +5388,9 @@ bool SoPlexBase<R>::multBasisTranspose(R* vec, bool unscale)
 
    if(!_isRealLPLoaded)
       return false;
+
+   // after a modification of the loaded LP the ids of the basic variables are stale until the basis matrix is set up again
+   _solver.basis().setupMatrix();
 
    if(_solver.rep() == SPxSolverBase<R>::COLUMN)
    {
